@@ -100,7 +100,8 @@ def inline_instantiation(facts, targs):
     return None
 
 
-def point_reader(S, f, rule_var='R-VAR', rule_rv='R-RV', fname=None, check_rv=None, success_status=None):
+def point_reader(S, f, rule_var='R-VAR', rule_rv='R-RV', fname=None, check_rv=None, success_status=None,
+                 only_plc=False):
     """Run the validate-after-read typestate on one function; records obligations on S."""
     facts = S.facts()
     fname = fname or (f.qname + ('<%s>' % f.targs if f.targs else ''))
@@ -108,7 +109,25 @@ def point_reader(S, f, rule_var='R-VAR', rule_rv='R-RV', fname=None, check_rv=No
     exits = {}
     descents = {}
     rv_sites = {}
+    plc = {}
     nF = [0]
+
+    def vf_valid(vfa):
+        d = dict(vfa)
+        return d.get('vsplit_eq') is True and (d.get('deleted') is False or d.get('root') is True)
+
+    def plc_site(ctx, n, what, vfa):
+        e = plc.setdefault(what, {'ok': True, 'loc': short_loc(n), 'path': None, 'why': ''})
+        if not vf_valid(vfa):
+            d = dict(vfa)
+            miss = []
+            if d.get('vsplit_eq') is not True:
+                miss.append('vsplit equal to the version of the descent')
+            if not (d.get('deleted') is False or d.get('root') is True):
+                miss.append('not deleted (or still a root)')
+            e['ok'] = False
+            e['why'] = 'not established for the version the lookup validated: ' + ', '.join(miss)
+            e['path'] = e['path'] or ctx.witness()
 
     # variables initialised from B.get_permutation().get_body()
     perm_vars = {}
@@ -122,6 +141,15 @@ def point_reader(S, f, rule_var='R-VAR', rule_rv='R-RV', fname=None, check_rv=No
 
     # state: (B, VF, slot, X, atoms, vp, rvok)
     def step(ctx, n, st):
+        B, VF, slot, X, atoms, vp, rvok, fs, vfa = st
+        r = step0(ctx, n, (B, VF, slot, X, atoms, vp, rvok, fs), vfa)
+        if r is None:
+            return None
+        if len(r) == 9:
+            return r
+        return r + (vfa,)
+
+    def step0(ctx, n, st, vfa):
         B, VF, slot, X, atoms, vp, rvok, fs = st
         fs = R.track_assign(f, n, fs, facts)
         k = n['k']
@@ -129,7 +157,13 @@ def point_reader(S, f, rule_var='R-VAR', rule_rv='R-RV', fname=None, check_rv=No
             a = call_args(f, n)
             nF[0] += 1
             return (root_var(f, call_recv(f, n)), root_var(f, a[2]) if len(a) > 2 else None, None, None,
-                    frozenset(), None, False, fs)
+                    frozenset(), None, False, fs, frozenset())
+        if k in CALL_KINDS and n.get('cq') in SLOT_LOADS and VF is not None:
+            plc_site(ctx, n, 'slot load at ' + short_loc(n), vfa)
+        if k == 'ReturnStmt' and VF is not None and slot is None:
+            rc0 = R.ret_const(f, n, fs)
+            if rc0 and (rc0.endswith('WARN_NOT_EXIST') or rc0.endswith('OK_NOT_FOUND')):
+                plc_site(ctx, n, R.ret_desc(f, n) + ' (miss report)', vfa)
         if is_call(n, cq=Y + 'tree_instance::load_root_ptr') or is_call(n, cq=Y + 'find_border'):
             if is_call(n, cq=Y + 'find_border') and slot == 'link':
                 site = 'descent into the loaded next layer'
@@ -178,6 +212,19 @@ def point_reader(S, f, rule_var='R-VAR', rule_rv='R-RV', fname=None, check_rv=No
         return (B, VF, slot, X, atoms, vp, rvok, fs)
 
     def branch(ctx, blk, idx, st):
+        B, VF, slot, X, atoms, vp, rvok, fs, vfa = st
+        r = branch0(ctx, blk, idx, (B, VF, slot, X, atoms, vp, rvok, fs))
+        if r is None:
+            return None
+        if VF is not None:
+            d = dict(vfa)
+            for (atom, val, subj, other, direct) in atoms_from_branch(f, blk, idx, None):
+                if subj == ('var', vname(VF)):
+                    d[atom] = val
+            vfa = frozenset(d.items())
+        return r + (vfa,)
+
+    def branch0(ctx, blk, idx, st):
         B, VF, slot, X, atoms, vp, rvok, fs = st
         fs2 = R.refine(f, blk, idx, fs)
         if fs2 is None:
@@ -205,7 +252,13 @@ def point_reader(S, f, rule_var='R-VAR', rule_rv='R-RV', fname=None, check_rv=No
         return (B, VF, slot, X, atoms, vp, rvok, fs2)
 
     ex = Explorer(f, step, branch)
-    ex.run((None, None, None, None, frozenset(), None, False, frozenset()))
+    ex.run((None, None, None, None, frozenset(), None, False, frozenset(), frozenset()))
+    for site, e in sorted(plc.items()):
+        S.ob('R-PLC', fname, site, e['ok'],
+             'the version the lookup validated was checked against the descent (vsplit, deleted) before its result is used'
+             if e['ok'] else 'the lookup result is used although ' + e['why'], loc=e['loc'], path=e['path'])
+    if only_plc:
+        return len(plc), 0, 0, nF[0]
     for site, e in sorted(exits.items()):
         S.ob(rule_var, fname, site, e['ok'],
              'the slot value is validated by a stable version loaded after it' if e['ok'] else
